@@ -11,7 +11,7 @@ for f in ("patch.diff", "demo.py", "notes.md"):
         shutil.copy(os.path.join(src, f), dst)
 meta = {"property": prop, "breaks": open(os.path.join(src, "notes.md")).read().split("\n\n")[0][:600] if os.path.exists(os.path.join(src, "notes.md")) else "",
         "needs_to_manifest": needs,
-        "confirmed": "tools/seedcheck.sh %s /verif/seeded/%s-r" + RND + "%s : demo exits 0 on the clean tree and 1 with the patch; repository test suite with the patch: 39 failed, 474 passed, 8 errors (same as the clean tree at that time)" % (prop, prop, var),
+        "confirmed": ("tools/seedcheck.sh %s /verif/seeded/%s-r" + RND + "%s : demo exits 0 on the clean tree and 1 with the patch; repository test suite with the patch: 39 failed, 474 passed, 8 errors (same as the clean tree at that time)") % (prop, prop, var),
         "check_result": {"cmd": "./vcheck %s --tier quick (patch applied to /repo, reverted afterwards)" % prop, "exit": int(rc), "caught_by": caught}}
 json.dump(meta, open(os.path.join(dst, "meta.json"), "w"), indent=1)
 print(dst)
